@@ -1039,7 +1039,15 @@ def gen_enc(env, rnd, tier):
     combos = [(["a128"], T("A128KW", "A128GCM", False, None)), (["a128"], None), (["a256"], T("dir", "A128CBC-HS256", False, None)),
               (["ecpub"], T("ECDH-ES+A128KW", "A128GCM", False, None)), (["ecpub"], None), (["rsapub"], T("RSA-OAEP", "A256GCM", False, None)),
               (["pw"], None), (["a128"], T("A128GCMKW", "A128CBC-HS256", False, None, where="split")),
-              (["a128", "ecpub"], {"protected": {"enc": "A128GCM"}}), (["a128", "a128b"], None)]
+              (["a128", "ecpub"], {"protected": {"enc": "A128GCM"}}), (["a128", "a128b"], None),
+              # header parameters split over protected / shared unprotected with the algorithm named explicitly (no
+              # per-recipient header is then created): compact output must still carry everything decryption needs
+              (["a128"], {"protected": {"alg": "A128KW"}, "unprotected": {"enc": "A128GCM"}}),
+              (["a128"], {"unprotected": {"alg": "A128KW", "enc": "A128GCM"}}),
+              (["a128"], {"protected": {"enc": "A128GCM"}, "unprotected": {"alg": "A128KW", "kid": "u"}}),
+              (["rsapub"], {"protected": {"alg": "RSA-OAEP"}, "unprotected": {"enc": "A256GCM"}}),
+              (["a256"], {"unprotected": {"alg": "dir", "enc": "A128CBC-HS256"}}),
+              (["ecpub"], {"protected": {"alg": "ECDH-ES"}, "unprotected": {"enc": "A128GCM", "apu": "QQ"}})]
     for keys, tmpl in combos:
         for compact in (0, 1):
             for detach in (0, 1):
